@@ -97,7 +97,7 @@ INFO = {
         "ref": "DESIGN.md 4 C17",
     },
     "C18": {
-        "text": "One-step check of StreamStatistics.add / report generation from an arbitrary invariant-satisfying state against the RFC 3550 A.1/A.3/A.8 reference, plus BMC of <=5 packets from a fresh object; every report field must pack.",
+        "text": "One-step check of StreamStatistics.add / report generation from an arbitrary invariant-satisfying state against the RFC 3550 A.1/A.3/A.8 reference, plus BMC of <=5 packets from a fresh object; every report field must pack, including LSR/DLSR computed from a symbolic wall-clock distance to the last sender report (negative, zero, up to 2^40 ms).",
         "note": "Arrival clock is a symbolic integer; clockrate multiplication abstracted.",
         "ref": "DESIGN.md 4 C18",
     },
